@@ -6,9 +6,11 @@ import (
 	"fmt"
 	"io"
 	"math"
+	"math/big"
 	"sort"
 	"strconv"
 	"strings"
+	"time"
 	"unicode/utf8"
 
 	"github.com/jf-tech/omniparser"
@@ -48,6 +50,7 @@ type jstats struct {
 	emptyArr, emptyObj     bool
 	emptyKey               bool
 	escapes, unicode, nums int
+	boundary               int
 }
 
 var strRunes = []rune{'a', 'b', 'Z', '0', ' ', '"', '\\', '/', '\b', '\f', '\n', '\r', '\t', 0, 0x1f, 0x7f,
@@ -121,7 +124,11 @@ func genNum(r *vh.Rng, st *jstats) *jval {
 	st.nums++
 	for try := 0; ; try++ {
 		var s string
-		if r.Chance(0.4) || try > 5 {
+		if r.Chance(0.2) {
+			bn := boundaryNumbers()
+			s = bn[r.Pick(len(bn))]
+			st.boundary++
+		} else if r.Chance(0.4) || try > 5 {
 			s = numPool[r.Pick(len(numPool))]
 			if try > 5 {
 				s = "7"
@@ -495,10 +502,21 @@ type jsonObs struct {
 // correspondence case.  gen is nil for raw texts (corpus / replay).
 func runJSON(sum *vh.Summary, cw *vh.CaseWriter, text string, gen *jval, verbose bool) (failed bool) {
 	cs := textCase{Kind: "json", Text: text}
+	if sum != nil {
+		vh.Current(opts, cs)
+	}
 	obs := &jsonObs{}
 	fail := func(what string, detail interface{}) {
 		failed = true
 		if sum != nil {
+			if len(text) > 20000 {
+				// a very large record: the text is the replay; do not repeat it three more times
+				o2 := *obs
+				o2.JSONify2, o2.CopyOut, o2.Reference = clip(o2.JSONify2), clip(o2.CopyOut), clip(o2.Reference)
+				o2.IfaceTrue = nil
+				sum.Fail(what, cs, map[string]interface{}{"detail": detail, "observed": &o2, "shrunk_from": shrunkFrom})
+				return
+			}
 			sum.Fail(what, cs, map[string]interface{}{"detail": detail, "observed": obs, "shrunk_from": shrunkFrom})
 		}
 	}
@@ -698,19 +716,10 @@ func genJSONCase(r *vh.Rng, sum *vh.Summary, cw *vh.CaseWriter) {
 	if st.nums > 0 {
 		sum.Hist("json:numbers")
 	}
-	nf := len(sum.Failures)
-	failed := runJSON(sum, cw, text, v, false)
-	if failed && len(sum.Failures) == nf+1 {
-		// the oracle fails: shrink the value and report the minimal failing document instead
-		sum.Failures = sum.Failures[:nf]
-		v = shrinkJSON(v)
-		var sb2 strings.Builder
-		v.serialise(nil, &sb2)
-		shrunkFrom = text
-		runJSON(sum, cw, sb2.String(), v, false)
-		shrunkFrom = ""
-		return
+	if st.boundary > 0 {
+		sum.Hist("json:boundary-number")
 	}
+	failed := runJSONShrunk(sum, cw, text, v, "")
 	if !failed && nontrivial && len(sum.Samples) < 2 && st.depth >= 2 {
 		sum.Sample(map[string]interface{}{"kind": "json", "text": text})
 	}
@@ -725,6 +734,15 @@ func jsonCandidates(v *jval) []*jval {
 	var out []*jval
 	switch v.K {
 	case jArr:
+		if n := len(v.Arr); n > 4 {
+			// delta debugging first: halves, then quarters
+			for _, cut := range [][2]int{{0, n / 2}, {n / 2, n}, {0, n / 4}, {n / 4, n / 2}, {n / 2, 3 * n / 4}, {3 * n / 4, n}} {
+				out = append(out, &jval{K: jArr, Arr: append([]*jval{}, v.Arr[cut[0]:cut[1]]...)})
+				c := &jval{K: jArr}
+				c.Arr = append(append(c.Arr, v.Arr[:cut[0]]...), v.Arr[cut[1]:]...)
+				out = append(out, c)
+			}
+		}
 		out = append(out, v.Arr...)
 		for i := range v.Arr {
 			c := &jval{K: jArr}
@@ -739,6 +757,15 @@ func jsonCandidates(v *jval) []*jval {
 			}
 		}
 	case jObj:
+		if n := len(v.Keys); n > 4 {
+			for _, cut := range [][2]int{{0, n / 2}, {n / 2, n}, {0, n / 4}, {n / 4, n / 2}, {n / 2, 3 * n / 4}, {3 * n / 4, n}} {
+				out = append(out, &jval{K: jObj, Keys: v.Keys[cut[0]:cut[1]], Vals: v.Vals[cut[0]:cut[1]]})
+				c := &jval{K: jObj}
+				c.Keys = append(append(c.Keys, v.Keys[:cut[0]]...), v.Keys[cut[1]:]...)
+				c.Vals = append(append(c.Vals, v.Vals[:cut[0]]...), v.Vals[cut[1]:]...)
+				out = append(out, c)
+			}
+		}
 		out = append(out, v.Vals...)
 		for i := range v.Keys {
 			c := &jval{K: jObj}
@@ -765,10 +792,15 @@ func jsonCandidates(v *jval) []*jval {
 	return out
 }
 
+// shrinkJSON: greedy, within a wall-clock budget (big values cost tens of ms per evaluation).
 func shrinkJSON(v *jval) *jval {
-	for round := 0; round < 200; round++ {
+	deadline := time.Now().Add(6 * time.Second)
+	for round := 0; round < 400 && time.Now().Before(deadline); round++ {
 		progress := false
 		for _, c := range jsonCandidates(v) {
+			if !time.Now().Before(deadline) {
+				break
+			}
 			var sb strings.Builder
 			c.serialise(nil, &sb)
 			if runJSON(nil, nil, sb.String(), c, false) {
@@ -781,4 +813,255 @@ func shrinkJSON(v *jval) *jval {
 		}
 	}
 	return v
+}
+
+// ---- fixed parts of every run ------------------------------------------------------------------------
+
+var boundaryCache []string
+
+// boundaryNumbers: literals at the edges of the integer / float64 formats: 2^k-1, 2^k, 2^k+1 (and
+// their negatives) around the widths 8..65, the neighbours of 2^63 that round to it, powers of ten
+// and their predecessors up to 1e25, .5 decimals where float64 runs out of fraction bits, extreme
+// exponents, and the sentinel values people write (MaxInt64, MaxUint64, ...).
+func boundaryNumbers() []string {
+	if boundaryCache != nil {
+		return boundaryCache
+	}
+	var out []string
+	add := func(s string) {
+		if f, err := strconv.ParseFloat(s, 64); err == nil && !math.IsInf(f, 0) {
+			out = append(out, s)
+		}
+	}
+	one := big.NewInt(1)
+	for _, k := range []uint{7, 8, 15, 16, 23, 24, 31, 32, 52, 53, 54, 62, 63, 64, 65} {
+		p := new(big.Int).Lsh(one, k)
+		for _, d := range []int64{-1, 0, 1} {
+			x := new(big.Int).Add(p, big.NewInt(d))
+			add(x.String())
+			add("-" + x.String())
+		}
+	}
+	for _, s := range []string{"9223372036854775807", "9223372036854775808", "-9223372036854775808", "-9223372036854775809",
+		"9223372036854775296", "9223372036854776832", "9223372036854774784", "9223372036854777856", "-9223372036854775296",
+		"18446744073709551615", "18446744073709551616", "18446744073709549568", "9007199254740991", "9007199254740992", "9007199254740993",
+		"-9007199254740991", "-9007199254740993", "4503599627370495.5", "4503599627370496.5", "4503599627370497.5", "2251799813685247.75",
+		"0.5", "1.5", "2.5", "-0.5", "0.1", "0.2", "0.30000000000000004", "1e19", "1e18", "1E19", "-1e19", "1.0e19", "10000000000000000000",
+		"9.223372036854775807e18", "9.223372036854775808e18", "92233720368547758.07e2", "1.8446744073709551615e19",
+		"123456789012345680000", "99999999999999990000", "9999999999999998", "9999999999999999", "99999999999999999999",
+		"1.7976931348623157e308", "-1.7976931348623157e308", "5e-324", "4.9e-324", "2.2250738585072014e-308", "2.2250738585072009e-308",
+		"1e-400", "-1e-400", "0", "-0", "-0.0", "0e5", "1e-7", "1e-6", "0.000001", "0.0000001", "1e20", "1e21", "1e22", "1e23",
+		"3.4028234663852886e38", "16777217", "0.1e-1", "1e+0", "2147483647", "2147483648", "-2147483648", "-2147483649", "4294967295", "4294967296"} {
+		add(s)
+	}
+	p := big.NewInt(1)
+	for k := 0; k <= 25; k++ {
+		add(p.String())
+		add(new(big.Int).Sub(p, one).String())
+		add("-" + p.String())
+		p = new(big.Int).Mul(p, big.NewInt(10))
+	}
+	boundaryCache = out
+	return out
+}
+
+func numVal(s string) *jval {
+	f, _ := strconv.ParseFloat(s, 64)
+	return &jval{K: jNum, F: f, Num: s}
+}
+
+func strVal(s string) *jval {
+	q, _ := json.Marshal(s)
+	return &jval{K: jStr, S: s, Ser: string(q)}
+}
+
+// boundaryDocs: every run, every boundary number goes through the whole oracle path
+// (J2NodeToInterface, JSONify2, copy Transform vs encoding/json by float64 bits) and the model:
+// as array elements, as object members, nested in objects in arrays, and alone at the root.
+func boundaryDocs(sum *vh.Summary, cw *vh.CaseWriter) {
+	bn := boundaryNumbers()
+	const chunk = 40
+	for i := 0; i < len(bn); i += chunk {
+		j := i + chunk
+		if j > len(bn) {
+			j = len(bn)
+		}
+		arr := &jval{K: jArr}
+		obj := &jval{K: jObj}
+		nested := &jval{K: jArr}
+		for k, s := range bn[i:j] {
+			arr.Arr = append(arr.Arr, numVal(s))
+			obj.Keys = append(obj.Keys, strVal(fmt.Sprintf("n%d", i+k)))
+			obj.Vals = append(obj.Vals, numVal(s))
+			nested.Arr = append(nested.Arr, &jval{K: jObj, Keys: []*jval{strVal("id"), strVal("")},
+				Vals: []*jval{numVal(s), &jval{K: jArr, Arr: []*jval{numVal(s)}}}})
+		}
+		for _, v := range []*jval{arr, obj, nested} {
+			var sb strings.Builder
+			v.serialise(nil, &sb)
+			sum.Count("json:"+sb.String(), true)
+			sum.Hist("json:fixed-boundary-doc")
+			runJSONShrunk(sum, cw, sb.String(), v, "")
+		}
+	}
+	for _, s := range []string{"9223372036854775807", "9223372036854775808", "-9223372036854775808", "18446744073709551615", "1e19", "9007199254740993"} {
+		sum.Count("json:"+s, false)
+		runJSON(sum, cw, s, numVal(s), false)
+	}
+}
+
+func genLeaf(r *vh.Rng, i int) *jval {
+	switch r.Pick(6) {
+	case 0:
+		return &jval{K: jNull}
+	case 1:
+		return &jval{K: jBool, B: i%2 == 0}
+	case 2:
+		bn := boundaryNumbers()
+		return numVal(bn[r.Pick(len(bn))])
+	case 3:
+		return numVal(strconv.Itoa(i*7 - 3000))
+	case 4:
+		return numVal(fmt.Sprintf("%d.%02d", i, i%100))
+	default:
+		return strVal(fmt.Sprintf("s%d", i))
+	}
+}
+
+func countLeaves(v *jval) int {
+	switch v.K {
+	case jArr:
+		n := 0
+		for _, x := range v.Arr {
+			n += countLeaves(x)
+		}
+		return n
+	case jObj:
+		n := 0
+		for _, x := range v.Vals {
+			n += countLeaves(x)
+		}
+		return n
+	}
+	return 1
+}
+
+// bigDocs: records with 12k-40k scalar leaves in ONE value (wide, long, and moderately deep).
+// They go through the Go-side oracle only (cw == nil): a conversion that degrades after N nodes,
+// N leaves or some depth within one call is visible here and nowhere in small documents.
+// One smaller member of each run also goes to the model.
+func bigDocs(r *vh.Rng, sum *vh.Summary, cw *vh.CaseWriter) {
+	mk := func(shape int, target int) *jval {
+		i := 0
+		leaf := func() *jval { i++; return genLeaf(r, i) }
+		switch shape {
+		case 0: // {"items":[{4 fields} x N], "meta":...}: the classic record with line items
+			items := &jval{K: jArr}
+			for i < target {
+				it := &jval{K: jObj}
+				for _, k := range []string{"id", "qty", "price", "name"} {
+					it.Keys = append(it.Keys, strVal(k))
+					it.Vals = append(it.Vals, leaf())
+				}
+				items.Arr = append(items.Arr, it)
+			}
+			return &jval{K: jObj, Keys: []*jval{strVal("order"), strVal("items"), strVal("total")},
+				Vals: []*jval{leaf(), items, leaf()}}
+		case 1: // one flat array
+			a := &jval{K: jArr}
+			for i < target {
+				a.Arr = append(a.Arr, leaf())
+			}
+			return a
+		case 2: // one flat object with distinct keys (one of them "")
+			o := &jval{K: jObj, Keys: []*jval{strVal("")}, Vals: []*jval{leaf()}}
+			for i < target {
+				o.Keys = append(o.Keys, strVal(fmt.Sprintf("k%d", i)))
+				o.Vals = append(o.Vals, leaf())
+			}
+			return o
+		case 3: // moderately deep: a chain of depth 60, a few hundred leaves at every level
+			per := target / 60
+			var cur *jval
+			for d := 0; d < 60; d++ {
+				if d%2 == 0 {
+					n := &jval{K: jArr}
+					for k := 0; k < per; k++ {
+						n.Arr = append(n.Arr, leaf())
+					}
+					if cur != nil {
+						n.Arr = append(n.Arr, cur)
+					}
+					cur = n
+				} else {
+					n := &jval{K: jObj}
+					for k := 0; k < per; k++ {
+						n.Keys = append(n.Keys, strVal(fmt.Sprintf("f%d", k)))
+						n.Vals = append(n.Vals, leaf())
+					}
+					n.Keys = append(n.Keys, strVal("next"))
+					n.Vals = append(n.Vals, cur)
+					cur = n
+				}
+			}
+			return cur
+		default: // matrix: array of arrays
+			side := 1
+			for side*side < target {
+				side++
+			}
+			m := &jval{K: jArr}
+			for a := 0; a < side; a++ {
+				row := &jval{K: jArr}
+				for b := 0; b < side; b++ {
+					row.Arr = append(row.Arr, leaf())
+				}
+				m.Arr = append(m.Arr, row)
+			}
+			return m
+		}
+	}
+	for shape := 0; shape < 5; shape++ {
+		v := mk(shape, r.Between(12000, 40000))
+		var sb strings.Builder
+		v.serialise(nil, &sb)
+		text := sb.String()
+		sum.Count(fmt.Sprintf("json-big:%d:%d", shape, len(text)), true)
+		sum.Hist(fmt.Sprintf("json:big-record(%dk+ leaves, oracle only)", countLeaves(v)/10000*10))
+		runJSONShrunk(sum, nil, text, v, fmt.Sprintf("a generated record with %d scalar leaves (shape %d)", countLeaves(v), shape))
+	}
+	// one wide value also through the model
+	v := mk(r.Pick(3), 1200)
+	var sb strings.Builder
+	v.serialise(nil, &sb)
+	sum.Count("json:"+sb.String(), true)
+	sum.Hist("json:wide-record(1.2k leaves, model too)")
+	runJSON(sum, cw, sb.String(), v, false)
+}
+
+func clip(s string) string {
+	if len(s) > 2000 {
+		return s[:2000] + fmt.Sprintf("... (%d bytes)", len(s))
+	}
+	return s
+}
+
+// runJSONShrunk runs a generated value; when the oracle fails on it (and only a few failures
+// have been reported so far) the value is shrunk and the minimal failing document is reported.
+func runJSONShrunk(sum *vh.Summary, cw *vh.CaseWriter, text string, v *jval, from string) bool {
+	nf := len(sum.Failures)
+	failed := runJSON(sum, cw, text, v, false)
+	if failed && len(sum.Failures) == nf+1 && nf < 4 {
+		sum.Failures = sum.Failures[:nf]
+		w := shrinkJSON(v)
+		var sb strings.Builder
+		w.serialise(nil, &sb)
+		if from == "" {
+			from = text
+		}
+		shrunkFrom = from
+		runJSON(sum, cw, sb.String(), w, false)
+		shrunkFrom = ""
+	}
+	return failed
 }
